@@ -1,352 +1,441 @@
-"""C08 - the approximate-equality oracle: decision-dependence facts of core/approx.py (E3)."""
+"""C08 - the approximate-equality oracle: core/approx.py evaluated abstractly; verdicts are symbolic and every truth assignment is explored (E3 by evaluation)."""
 from __future__ import annotations
 
 import ast
+import itertools
+from dataclasses import dataclass
 from fractions import Fraction
 
 from ..core import Run, dotted, norm, AnalysisError
-from ..dim import World
-from ..flow import Fn, kw, must_all, monomial, numeric_consts, node_of, conditions_for
+from ..alg import T, num, var, op, app
+from ..pyreader import Raised
+from ..gate import GateReader, Dim, Obj, quantity, qvector
+from ..exprtree import same_value
 
 EXPLANATION = (
-    "Dataflow facts about the ~100-line oracle in symplyphysics/core/approx.py, decided on a statement CFG with dominators, "
-    "reaching definitions and backward slices (no execution): A1 every return of approx_equal_quantities is dominated by the "
-    "dimension assertion on (lhs, rhs); A2 its result implies two approx_equal_numbers verdicts, one on re(lhs.sf)/re(rhs.sf), "
-    "one on im(lhs.sf)/im(rhs.sf); A3 the only default tolerance is the module constant, which folds to 0.001; A4 the default "
-    "absolute tolerance is |lhs*rel| and rel/abs reach pytest.approx(rhs, rel=, abs=) unchanged, the verdict is lhs == approx; "
-    "A5 tolerance/dimension keywords are forwarded unchanged down the call chain; A6 assert_equal asserts that verdict, wraps a "
-    "bare rhs with the caller's dimension and never re-dimensions lhs; A7 vectors are zipped strictly and every pair asserted.")
+    "symplyphysics/core/approx.py is EVALUATED (sa/pyreader.py) with symbolic numbers, quantities and tolerances. A comparison "
+    "`x == pytest.approx(y, rel=, abs=)` evaluates to a symbolic verdict (x, y, rel, abs); wherever the code branches on a verdict, both "
+    "truth values are explored, so the result of each function is a truth table over its verdicts - whatever the shape of the code "
+    "(conjunction, guard clauses, all(...), helper functions, **kwargs forwarding). Decided: A1 approx_equal_quantities hands (lhs, rhs) to "
+    "assert_equivalent_dimension on every run; A2 its result is true exactly when the re-parts and the im-parts of both operands' SI "
+    "values (convert_to_si, never the gram-based scale factor) compare equal; A3 the default relative tolerance is the module constant "
+    "0.001, re-bound nowhere; A4 the verdict on numbers is lhs == approx(rhs, rel, abs) with rel = caller's or 0.001 and abs = caller's or "
+    "|lhs * rel|, and an infinite operand is compared exactly; A5 tolerances and dimension reach the number comparison unchanged from "
+    "assert_equal_vectors / assert_equal / approx_equal_quantities; A6 assert_equal raises AssertionError exactly when that verdict is "
+    "false, wraps a bare rhs with the caller's dimension and a bare lhs with none; A7 assert_equal_vectors asserts every component pair "
+    "and refuses vectors of different lengths.")
 ASSUMPTIONS = [
     "pytest.approx(expected, rel=, abs=) accepts |actual-expected| <= max(rel*|expected|, abs) (its documented contract)",
-    "sympy re/im return real and imaginary part; Quantity.scale_factor is the SI scale (C05)",
+    "sympy re/im return real and imaginary part; convert_to_si is the SI value (C07)",
 ]
-TRUSTED = ["pytest.approx", "sympy.re / sympy.im", "python ast"]
+TRUSTED = ["pytest.approx", "sympy.re / sympy.im", "python ast", "sa/pyreader.py abstract evaluator"]
 
 M = "symplyphysics.core.approx"
-AED = "symplyphysics.core.dimensions.dimensions.assert_equivalent_dimension"
-QTY = "symplyphysics.core.symbols.quantities.Quantity"
-AEN = M + ".approx_equal_numbers"
-AEQ = M + ".approx_equal_quantities"
-AE = M + ".assert_equal"
+DEFAULT_REL = num(Fraction(1, 1000))
 
 
-def _pure_forward(fn: Fn, n, expr, param: str) -> bool:
-    """expr is the parameter itself (possibly through copies): no call, no arithmetic, no constant."""
-    sl = fn.slice(n, expr)
-    if sl.params != {param} or sl.calls or numeric_consts(sl) or sl.free:
-        return False
-    return all(isinstance(e, ast.Name) for e in sl.exprs)
+class NeedAssumption(Exception):
+
+    def __init__(self, key):
+        super().__init__(str(key))
+        self.key = key
+
+
+@dataclass(frozen=True)
+class Verdict:
+    kind: str  # tol | exact
+    lhs: object
+    rhs: object
+    rel: object = None
+    abs_: object = None
+
+    @property
+    def key(self):
+        return (self.kind, repr(self.lhs), repr(self.rhs), repr(self.rel), repr(self.abs_))
+
+
+INF = ("inf", )
+
+
+class ApproxReader(GateReader):
+
+    def __init__(self, module, assume: dict, infinite=()):
+        super().__init__(module, "approx.py", depth_limit=10)
+        self.assume = assume
+        self.infinite = set(infinite)
+        self.verdicts: dict = {}
+        self.wrapped: list = []
+
+    def truthy(self, v, n):
+        if isinstance(v, Verdict):
+            self.verdicts[v.key] = v
+            if v.key not in self.assume:
+                raise NeedAssumption(v.key)
+            return self.assume[v.key]
+        return super().truthy(v, n)
+
+    def global_value(self, n):
+        d = dotted(n)
+        if d in ("inf", "math.inf", "oo", "S.Infinity"):
+            return INF
+        return super().global_value(n)
+
+    def hook_unary(self, o, v, n):
+        if v == INF and isinstance(o, (ast.USub, ast.UAdd)):
+            return INF
+        return NotImplemented
+
+    def _is_inf(self, t) -> bool:
+        while isinstance(t, T) and t.op == "app" and t.val == "Abs":
+            t = t.args[0]
+        return isinstance(t, T) and t.op == "var" and t.val in self.infinite
+
+    def hook_compare(self, o, l, r, n):
+        if isinstance(o, (ast.Eq, ast.NotEq)):
+            res = None
+            if l == INF or r == INF:
+                other = r if l == INF else l
+                if isinstance(other, (T, int)):
+                    res = self._is_inf(other)
+            elif isinstance(r, tuple) and r and r[0] == "approx" and isinstance(l, (T, int)):
+                res = Verdict("tol", l, r[1], r[2], r[3])
+            elif isinstance(l, tuple) and l and l[0] == "approx" and isinstance(r, (T, int)):
+                res = Verdict("tol", r, l[1], l[2], l[3])
+            elif isinstance(l, T) and isinstance(r, T):
+                res = Verdict("exact", l, r)
+            if res is not None:
+                if isinstance(o, ast.NotEq):
+                    if isinstance(res, bool):
+                        return not res
+                    self.fail(n, "negated verdict")
+                return res
+        if isinstance(o, (ast.In, ast.NotIn)) and isinstance(r, list) and INF in r and isinstance(l, (T, int)) and all(x == INF for x in r):
+            res = self._is_inf(l)
+            return res if isinstance(o, ast.In) else not res
+        if isinstance(o, (ast.Lt, ast.LtE, ast.Gt, ast.GtE)):
+            for a_, b_ in ((l, r), (r, l)):
+                if isinstance(b_, tuple) and b_ and b_[0] == "approx" and isinstance(a_, (T, int)):
+                    return Verdict(type(o).__name__, a_, b_[1], b_[2], b_[3])  # an ordering against approx: not the equality the oracle is about
+            if l == INF or r == INF:
+                other = r if l == INF else l
+                if isinstance(other, (T, int)):
+                    inf_ = self._is_inf(other)
+                    # |x| >= inf, |x| < inf ... for a finite / infinite x
+                    if isinstance(o, ast.GtE):
+                        return inf_ if r == INF else True
+                    if isinstance(o, ast.Lt):
+                        return (not inf_) if r == INF else False
+                    if isinstance(o, ast.LtE):
+                        return True if r == INF else inf_
+                    if isinstance(o, ast.Gt):
+                        return False if r == INF else (not inf_)
+        return super().hook_compare(o, l, r, n)
+
+    def hook_call(self, n, env, fns):
+        f = dotted(n.func) or ""
+        name = f.split(".")[-1]
+        if name == "approx" and n.args and name not in self.functions:
+            kw_ = {k.arg: self.ev(k.value, env, fns) for k in n.keywords if k.arg}
+            for k in n.keywords:
+                if k.arg is None:
+                    kw_.update(self.ev(k.value, env, fns))
+            return ("approx", self.ev(n.args[0], env, fns), kw_.get("rel"), kw_.get("abs"))
+        if name in ("abs", "Abs", "fabs") and len(n.args) == 1:
+            v = self.ev(n.args[0], env, fns)
+            if isinstance(v, (T, int)) and not isinstance(v, bool):
+                return app("Abs", v if isinstance(v, T) else num(v))
+        if name in ("isinf", ) and len(n.args) == 1:
+            v = self.ev(n.args[0], env, fns)
+            if isinstance(v, (T, int)):
+                return self._is_inf(v)
+        if name in ("float", "bool", "N") and len(n.args) == 1:
+            return self.ev(n.args[0], env, fns)
+        if name in ("re", "im") and len(n.args) == 1 and name not in self.functions:
+            v = self.ev(n.args[0], env, fns)
+            if isinstance(v, (T, int)):
+                return app(name, v if isinstance(v, T) else num(v))
+            self.fail(n, f"{name}() of {type(v).__name__}")
+        if name == "convert_to_si" and len(n.args) == 1 and name not in self.functions:
+            v = self.ev(n.args[0], env, fns)
+            if isinstance(v, Obj):
+                return var(f"si({v.tag})")
+            self.fail(n, "convert_to_si of a non-quantity")
+        if name == "Quantity" and name not in self.functions:
+            args = [self.ev(a, env, fns) for a in n.args]
+            kw_ = {k.arg: self.ev(k.value, env, fns) for k in n.keywords if k.arg}
+            tag = f"Q{len(self.wrapped)}"
+            obj = Obj("Quantity", {"scale_factor": var(f"sf({tag})"), "dimension": kw_.get("dimension") if isinstance(kw_.get("dimension"), Dim) else Dim.of(unknown=1),
+                                   "display_name": tag, "name": tag}, tag)
+            self.wrapped.append((obj, args, kw_))
+            return obj
+        return super().hook_call(n, env, fns)
+
+
+def explore(module, fname, args, kwargs, infinite=()):
+    """all runs of fname over the truth assignments of the verdicts it branches on: [(assumptions, outcome, reader)]"""
+    out = []
+    stack = [{}]
+    while stack:
+        assume = stack.pop()
+        R = ApproxReader(module, assume, infinite)
+        try:
+            got = R.call(fname, [a() if callable(a) else a for a in args], {k: (v() if callable(v) else v) for k, v in kwargs.items()})
+            if isinstance(got, Verdict):
+                R.verdicts[got.key] = got
+                if got.key not in assume:
+                    raise NeedAssumption(got.key)  # a verdict handed back untested: both of its truth values are explored too
+            outcome = ("returns", got)
+        except Raised as r:
+            outcome = ("raises", r.exc.split(".")[-1])
+        except NeedAssumption as na:
+            for b in (True, False):
+                stack.append({**assume, na.key: b})
+            continue
+        if len(out) > 4096:
+            raise AnalysisError("C08: too many verdict combinations")
+        out.append((assume, outcome, R))
+    return out
+
+
+def truth(outcome, assume) -> object:
+    kind, v = outcome
+    if kind == "raises":
+        return ("raises", v)
+    if isinstance(v, Verdict):
+        return assume.get(v.key, ("undetermined", v))
+    return v
+
+
+def qobj(tag: str, dim: Dim) -> Obj:
+    return Obj("Quantity", {"scale_factor": var(f"sf({tag})"), "dimension": dim, "display_name": tag, "name": tag}, tag)
+
+
+def expected_number_verdict(l, r, rel, abs_):
+    rel_ = rel if rel is not None else DEFAULT_REL
+    abs__ = abs_ if abs_ is not None else app("Abs", op("mul", l, rel_))
+    return l, r, rel_, abs__
+
+
+def verdict_matches(v: Verdict, l, r, rel, abs_) -> bool:
+    el, er, erel, eabs = expected_number_verdict(l, r, rel, abs_)
+    return v.kind == "tol" and same_value(v.lhs, el) and same_value(v.rhs, er) and v.rel is not None and v.abs_ is not None \
+        and same_value(v.rel, erel) and same_value(v.abs_, eabs)
 
 
 def check(run: Run) -> None:
-    w = World(run.src)
     mod = run.src.need(M)
     for rid, text in [
-        ("A1", "every return of approx_equal_quantities is dominated by assert_equivalent_dimension(lhs.., rhs..)"),
-        ("A2", "approx_equal_quantities returns a conjunction of the re- and the im-comparison of both operands' SI values"),
-        ("A3", "the default relative tolerance is the module constant and folds to 0.001"),
-        ("A4", "default abs tolerance = |lhs*rel|; rel and abs reach pytest.approx(rhs, rel=, abs=); verdict is lhs == approx"),
-        ("A5", "tolerance and dimension keywords are forwarded unchanged along assert_equal(_vectors) -> approx_equal_quantities -> approx_equal_numbers"),
-        ("A6", "assert_equal asserts approx_equal_quantities(lhs, rhs); bare rhs wrapped with caller's dimension; lhs never re-dimensioned"),
-        ("A7", "assert_equal_vectors zips lhs.components with rhs.components strictly and asserts every pair"),
+        ("A1", "approx_equal_quantities hands (lhs, rhs) to assert_equivalent_dimension on every run"),
+        ("A2", "approx_equal_quantities is true exactly when the re-parts and the im-parts of both operands' SI values compare equal"),
+        ("A3", "the default relative tolerance is the module constant 0.001, re-bound nowhere"),
+        ("A4", "the verdict on numbers is lhs == approx(rhs, rel, abs), rel = caller's or 0.001, abs = caller's or |lhs*rel|; an infinite operand is compared exactly"),
+        ("A5", "tolerances and dimension reach the number comparison unchanged along assert_equal_vectors -> assert_equal -> approx_equal_quantities -> approx_equal_numbers"),
+        ("A6", "assert_equal raises AssertionError exactly when the verdict is false; bare rhs wrapped with the caller's dimension; lhs never re-dimensioned"),
+        ("A7", "assert_equal_vectors asserts every component pair and refuses vectors of different lengths"),
     ]:
         run.rule(rid, text)
+    tree = mod.tree
+    l, r, RL, AB = var("l"), var("r"), var("REL"), var("ABS")
 
-    # ------------------------------------------------------------------ approx_equal_quantities
-    f = Fn(w, M, "approx_equal_quantities")
-    run.require({"lhs", "rhs"} <= set(f.params), "approx_equal_quantities lost its lhs/rhs parameters")
-    aed = f.calls(AED)
-    rets = f.cfg.returns()
-    run.require(bool(rets), "approx_equal_quantities has no return")
-    good_aed = []
-    for n, c in aed:
-        if len(c.args) >= 4:
-            s0, s3 = f.slice(n, c.args[0]), f.slice(n, c.args[3])
-        else:
-            a0 = c.args[0] if c.args else kw(c, "arg")
-            a3 = kw(c, "expected_unit") or (c.args[3] if len(c.args) > 3 else None)
-            if a0 is None or a3 is None:
-                continue
-            s0, s3 = f.slice(n, a0), f.slice(n, a3)
-        # the compared pair must be (something from lhs, something from rhs)
-        if "lhs" in s0.params and "rhs" not in s0.params and "rhs" in s3.params and "lhs" not in s3.params:
-            good_aed.append(n)
-    for r in rets:
-        run.ob("A1", f"return@{norm(r.ast, 60)}")
-        if not f.cfg.dominated_by(r, lambda x: x in good_aed):
-            run.violate("A1", f"{f.qual}:return:{norm(r.ast, 80)}", f.mod, r.ast,
-                        "a return of approx_equal_quantities is reachable without passing assert_equivalent_dimension on (lhs, rhs)",
-                        dimension_checks=[f.line(n) for n, _ in aed])
-    # A2
-    for r in rets:
-        run.ob("A2", f"return@{norm(r.ast, 60)}")
-        if r.ast.value is None:
-            run.violate("A2", f"{f.qual}:return:None", f.mod, r.ast, "returns None")
-            continue
-        if isinstance(r.ast.value, ast.Constant) and r.ast.value.value is False:
-            continue  # a negative verdict needs no justification
-        implied = must_all(f.cfg, r, r.ast.value)
-        # what the path to this return has already established: `if not c: return False` before it means c holds here
-        for t, pol in (conditions_for(f.fn, r.ast) or []):
-            if isinstance(t, str):
-                continue
-            if pol is True:
-                implied += must_all(f.cfg, r, t)
-            elif isinstance(t, ast.UnaryOp) and isinstance(t.op, ast.Not):
-                implied += must_all(f.cfg, r, t.operand)
-        cover = set()
-        for c in implied:
-            cn = node_of(f.cfg, c)
-            if cn is None or f.callee(cn, c) != AEN or len(c.args) < 2:
-                continue
-            s0, s1 = f.slice(cn, c.args[0]), f.slice(cn, c.args[1])
-            for part in ("re", "im"):
-                p0 = _has_part(f, cn, c.args[0], part)
-                p1 = _has_part(f, cn, c.args[1], part)
-                if p0 and p1 and "lhs" in s0.params and "rhs" not in s0.params and "rhs" in s1.params and "lhs" not in s1.params \
-                        and _is_si_value(f, cn, c.args[0]) and _is_si_value(f, cn, c.args[1]) \
-                        and not _has_part(f, cn, c.args[0], "im" if part == "re" else "re") \
-                        and not _has_part(f, cn, c.args[1], "im" if part == "re" else "re"):
-                    cover.add(part)
-        missing = {"re", "im"} - cover
-        if missing:
-            run.violate("A2", f"{f.qual}:return:{norm(r.ast, 80)}", f.mod, r.ast,
-                        f"the returned verdict does not imply the comparison of the {'/'.join(sorted(missing))} part(s) of the SI values of lhs and rhs "
-                        f"(convert_to_si; a raw .scale_factor is gram-based for every dimension that contains mass, so an absolute tolerance given in SI "
-                        f"units would be applied in other units)", implied_calls=[norm(c, 80) for c in implied])
-    run.sample({"function": f.qual, "returns": [f.line(r) for r in rets], "dimension_check_at": [f.line(n) for n in good_aed]})
-
-    # ------------------------------------------------------------------ A3 + A4: approx_equal_numbers
-    g = Fn(w, M, "approx_equal_numbers")
-    run.require({"lhs", "rhs", "relative_tolerance", "absolute_tolerance"} <= set(g.params), "approx_equal_numbers parameters changed")
-    const = None
-    for s in mod.tree.body:
-        if isinstance(s, (ast.Assign, ast.AnnAssign)):
-            tg = s.targets if isinstance(s, ast.Assign) else [s.target]
-            if any(isinstance(t, ast.Name) and t.id == "APPROX_RELATIVE_TOLERANCE" for t in tg):
-                const = s
-    run.require(const is not None, "APPROX_RELATIVE_TOLERANCE not found")
-    run.ob("A3", "constant")
-    cv = const.value
-    val = None
-    try:
-        val = ast.literal_eval(cv)
-    except (ValueError, SyntaxError):
-        m = monomial(cv, lambda e: None)
-        val = float(m["#"]) if m else None
-    if not (isinstance(val, (int, float)) and abs(val - 0.001) < 1e-15):
-        run.violate("A3", f"{M}:APPROX_RELATIVE_TOLERANCE", mod, const, f"default relative tolerance is {norm(cv)} (0.001 = 0.1% required)", value=str(val))
-    # writes to the constant anywhere else in the package
+    # ------------------------------------------------------------------ A3 (static part): the constant is bound once
+    consts = [s for s in tree.body if isinstance(s, (ast.Assign, ast.AnnAssign))
+              and any(isinstance(t, ast.Name) and t.id == "APPROX_RELATIVE_TOLERANCE" for t in (s.targets if isinstance(s, ast.Assign) else [s.target]))]
+    run.require(len(consts) >= 1, "APPROX_RELATIVE_TOLERANCE not found")
+    run.ob("A3", "constant-bound-once")
     for m2 in run.src.mods.values():
         for nn in ast.walk(m2.tree):
-            if isinstance(nn, (ast.Assign, ast.AugAssign, ast.AnnAssign)) and nn is not const:
+            if isinstance(nn, (ast.Assign, ast.AugAssign, ast.AnnAssign)) and nn is not consts[0]:
                 tg = nn.targets if isinstance(nn, ast.Assign) else [nn.target]
                 for t in tg:
-                    if (isinstance(t, ast.Name) and t.id == "APPROX_RELATIVE_TOLERANCE" and m2.name == M) or \
-                            (isinstance(t, ast.Attribute) and t.attr == "APPROX_RELATIVE_TOLERANCE"):
+                    if (isinstance(t, ast.Name) and t.id == "APPROX_RELATIVE_TOLERANCE" and m2.name == M) or (isinstance(t, ast.Attribute) and t.attr == "APPROX_RELATIVE_TOLERANCE"):
                         run.violate("A3", f"{m2.name}:rebinds:APPROX_RELATIVE_TOLERANCE", m2, nn, "the default tolerance constant is re-assigned")
-    pa = g.calls("pytest.approx")
-    run.require(len(pa) >= 1, "approx_equal_numbers no longer calls pytest.approx")
-    rets = g.cfg.returns()
-    guarded_inf: list = []
-    for r in rets:
-        run.ob("A4", f"return@{norm(r.ast, 60)}")
-        v = r.ast.value
-        vn = r
-        for _ in range(4):  # a verdict kept in a local first: follow the single definition
-            if isinstance(v, ast.Name):
-                ds = g.cfg.reaching().get(vn, {}).get(v.id)
-                if ds and len(ds) == 1:
-                    dn = next(iter(ds))
-                    if dn.kind == "stmt" and isinstance(dn.ast, ast.Assign) and len(dn.ast.targets) == 1 and isinstance(dn.ast.targets[0], ast.Name):
-                        v, vn = dn.ast.value, dn
+
+    # ------------------------------------------------------------------ A3 / A4: approx_equal_numbers
+    for label, rel, abs_ in (("defaults", None, None), ("relative given", RL, None), ("absolute given", None, AB), ("both given", RL, AB)):
+        run.ob("A4", f"numbers:{label}")
+        runs = explore(tree, "approx_equal_numbers", [l, r], {"relative_tolerance": rel, "absolute_tolerance": abs_})
+        problem = None
+        for assume, outcome, R in runs:
+            if outcome[0] != "returns" or not isinstance(outcome[1], Verdict):
+                tv = truth(outcome, assume)
+                problem = f"the result is {tv!r}, not the comparison lhs == approx(rhs, rel=, abs=)" if not isinstance(outcome[1], Verdict) else problem
+                if problem:
+                    break
+                continue
+            v = outcome[1]
+            if not verdict_matches(v, l, r, rel, abs_):
+                el, er, erel, eabs = expected_number_verdict(l, r, rel, abs_)
+                rid = "A3" if (rel is None and v.kind == "tol" and v.rel is not None and not same_value(v.rel, DEFAULT_REL) and same_value(v.lhs, l) and same_value(v.rhs, r)) else "A4"
+                problem = (rid, f"approx_equal_numbers ({label}) compares {v.lhs!r} with approx({v.rhs!r}, rel={v.rel!r}, abs={v.abs_!r}); "
+                                f"the property demands lhs == approx(rhs, rel={erel!r}, abs={eabs!r})" + (" - the default relative tolerance must be 0.001" if rid == "A3" else ""))
+                break
+        if problem:
+            rid, msg = problem if isinstance(problem, tuple) else ("A4", problem)
+            run.violate(rid, f"{M}:approx_equal_numbers:{label}", mod, tree, msg)
+    for label, inf in (("infinite lhs", {"l"}), ("infinite rhs", {"r"}), ("both infinite", {"l", "r"})):
+        run.ob("A4", f"numbers:{label}")
+        runs = explore(tree, "approx_equal_numbers", [l, r], {"relative_tolerance": None, "absolute_tolerance": None}, infinite=inf)
+        for assume, outcome, R in runs:
+            v = outcome[1] if outcome[0] == "returns" else None
+            ok = isinstance(v, Verdict) and v.kind == "exact" and {repr(v.lhs), repr(v.rhs)} == {"l", "r"}
+            if not ok:
+                run.violate("A4", f"{M}:approx_equal_numbers:infinite-operands", mod, tree,
+                            f"approx_equal_numbers with an {label} answers {v if v is not None else outcome!r}, not the exact comparison lhs == rhs: with the default absolute "
+                            f"tolerance |lhs * rel| an infinite lhs equals every rhs, while the swapped operands fail - the verdict is not symmetric")
+                break
+
+    # ------------------------------------------------------------------ A1 / A2 / A5: approx_equal_quantities
+    D = Dim.of(mass=1, length=1, time=-2)
+    for label, rhs_kind, rel, abs_ in (("two quantities, defaults", "quantity", None, None), ("two quantities, tolerances given", "quantity", RL, AB),
+                                        ("bare rhs with dimension", "number", None, AB), ("bare rhs, relative given", "number", RL, None)):
+        lq = qobj("L", D)
+        rq = qobj("R", D) if rhs_kind == "quantity" else var("rhsnumber")
+        runs = explore(tree, "approx_equal_quantities", [lq, rq], {"relative_tolerance": rel, "absolute_tolerance": abs_, "dimension": D if rhs_kind == "number" else None})
+        run.ob("A1", label)
+        run.ob("A2", label)
+        run.ob("A5", f"quantities:{label}")
+        reported = set()
+        for assume, outcome, R in runs:
+            rhs_obj = rq
+            if rhs_kind == "number":
+                w_ = [x for x in R.wrapped if x[1] and x[1][0] is rq or (x[1] and isinstance(x[1][0], T) and repr(x[1][0]) == "rhsnumber")]
+                run.ob("A6", f"quantities:{label}:rhs-wrap")
+                if not w_ or not (isinstance(w_[0][2].get("dimension"), Dim) and w_[0][2]["dimension"] == D):
+                    if "wrap" not in reported:
+                        reported.add("wrap")
+                        run.violate("A6", f"{M}:approx_equal_quantities:Quantity(rhs)", mod, tree, "a bare rhs is not wrapped as Quantity(rhs, dimension=<the caller's dimension>)")
+                    continue
+                rhs_obj = w_[0][0]
+            ev_ok = any(e_[0] is lq and e_[3] is rhs_obj for e_ in R.events)
+            if not ev_ok and outcome[0] == "returns" and "A1" not in reported:
+                reported.add("A1")
+                run.violate("A1", f"{M}:approx_equal_quantities:return:{label}", mod, tree,
+                            f"approx_equal_quantities ({label}) can return without having passed assert_equivalent_dimension on (lhs, rhs) "
+                            f"(dimension checks made: {[(repr(e_[0]), repr(e_[3])) for e_ in R.events]})")
+            if outcome[0] != "returns":
+                continue
+            sl, sr = var(f"si({lq.tag})"), var(f"si({rhs_obj.tag})")
+            need = {}
+            for part in ("re", "im"):
+                pl, pr = app(part, sl), app(part, sr)
+                hit = [v for v in R.verdicts.values() if verdict_matches(v, pl, pr, rel, abs_)]
+                need[part] = hit[0] if hit else None
+            tv = truth(outcome, assume)
+            if isinstance(tv, tuple):
+                tv = None
+            missing = [p_ for p_, v in need.items() if v is None]
+            if tv is True and missing and "A2" not in reported:
+                # a positive result without the comparison of a part: which kind of defect?
+                used = [v for v in R.verdicts.values()]
+                scale = any("sf(" in repr(v.lhs) or "sf(" in repr(v.rhs) for v in used)
+                # the operands of every missing part are compared, only not under the caller's tolerances: a forwarding defect (A5); anything else is A2
+                tol = all(any(v.kind == "tol" and same_value(v.lhs, app(p_, sl)) and same_value(v.rhs, app(p_, sr)) for v in used) for p_ in missing)
+                rid = "A5" if (tol and not scale) else "A2"
+                reported.add("A2")
+                run.violate(rid, f"{M}:approx_equal_quantities:{label}:{'/'.join(missing)}", mod, tree,
+                            f"approx_equal_quantities ({label}) answers True without the comparison of the {'/'.join(missing)} part(s) of the SI values of lhs and rhs with the "
+                            f"caller's tolerances (comparisons made: {[str(v) for v in used][:4]})"
+                            + ("; a raw .scale_factor is gram-based for every dimension that contains mass, so an absolute tolerance given in SI units would be applied in other units" if scale else "")
+                            + ("; the tolerances do not reach approx_equal_numbers unchanged" if rid == "A5" else ""))
+            elif not missing:
+                want = all(assume.get(v.key, True) for v in need.values())
+                determined = all(v.key in assume for v in need.values()) or tv is False
+                if tv is not None and determined and tv != want and "A2t" not in reported:
+                    reported.add("A2t")
+                    run.violate("A2", f"{M}:approx_equal_quantities:{label}:truth", mod, tree,
+                                f"approx_equal_quantities ({label}) answers {tv} when the re comparison is {assume.get(need['re'].key)} and the im comparison is {assume.get(need['im'].key)}: "
+                                f"the result must be their conjunction")
+
+    # ------------------------------------------------------------------ A6: assert_equal
+    for label, lk, rk in (("quantities", "q", "q"), ("bare rhs", "q", "n"), ("bare lhs", "n", "q"), ("both bare", "n", "n")):
+        lq = qobj("L", D) if lk == "q" else var("lhsnumber")
+        rq = qobj("R", D) if rk == "q" else var("rhsnumber")
+        runs = explore(tree, "assert_equal", [lq, rq], {"relative_tolerance": RL, "absolute_tolerance": AB, "dimension": D})
+        run.ob("A6", f"assert_equal:{label}")
+        run.ob("A5", f"assert_equal:{label}")
+        reported = set()
+        for assume, outcome, R in runs:
+            lhs_obj, rhs_obj = lq, rq
+            for who, kind_, orig in (("lhs", lk, lq), ("rhs", rk, rq)):
+                if kind_ == "n":
+                    w_ = [x for x in R.wrapped if x[1] and isinstance(x[1][0], T) and repr(x[1][0]) == repr(orig)]
+                    if not w_:
+                        if who not in reported:
+                            reported.add(who)
+                            run.violate("A6", f"{M}:assert_equal:Quantity({who})", mod, tree, f"a bare {who} is not wrapped in a Quantity")
                         continue
-            break
-        r_at = vn
-        ok = False
-        why = "the verdict is not `lhs == approx(rhs, rel=..., abs=...)`"
-        # the exact comparison lhs == rhs is the right verdict where an operand is infinite (no tolerance can be relative to infinity)
-        ve = v.args[0] if isinstance(v, ast.Call) and dotted(v.func) == "bool" and len(v.args) == 1 else v
-        if isinstance(ve, ast.Compare) and len(ve.ops) == 1 and isinstance(ve.ops[0], ast.Eq) and {dotted(ve.left), dotted(ve.comparators[0])} == {"lhs", "rhs"}:
-            conds = [t for t, pol in (conditions_for(g.fn, r.ast) or []) if not isinstance(t, str) and pol]
-            if any(_mentions_infinity(t) and {"lhs", "rhs"} <= {x.id for x in ast.walk(t) if isinstance(x, ast.Name)} for t in conds):
-                guarded_inf.append(r)
+                    d_ = w_[0][2].get("dimension")
+                    if who == "lhs" and isinstance(d_, Dim) and "lhsdim" not in reported:
+                        reported.add("lhsdim")
+                        run.violate("A6", f"{M}:assert_equal:Quantity(lhs,dimension)", mod, tree, "lhs is wrapped with a caller-supplied dimension (its own dimension must be kept)")
+                    if who == "rhs" and not (isinstance(d_, Dim) and d_ == D) and "rhsdim" not in reported:
+                        reported.add("rhsdim")
+                        run.violate("A6", f"{M}:assert_equal:Quantity(rhs)", mod, tree, "a bare rhs is wrapped without the caller's `dimension`")
+                    if who == "lhs":
+                        lhs_obj = w_[0][0]
+                    else:
+                        rhs_obj = w_[0][0]
+                elif any(x[1] and x[1][0] is orig for x in R.wrapped) and who == "lhs" and "rewrap" not in reported:
+                    reported.add("rewrap")
+                    run.violate("A6", f"{M}:assert_equal:Quantity(lhs,dimension)", mod, tree, "a quantity lhs is re-wrapped (its own dimension must be kept)")
+            if not (isinstance(lhs_obj, Obj) and isinstance(rhs_obj, Obj)):
                 continue
-        if isinstance(v, ast.Compare) and len(v.ops) == 1 and isinstance(v.ops[0], ast.Eq):
-            sides = [v.left, v.comparators[0]]
-            for a, b in (sides, sides[::-1]):
-                sa = g.slice(r_at, a)
-                sb = g.slice(r_at, b)
-                if sa.params == {"lhs"} and not sa.calls and not numeric_consts(sa) and "pytest.approx" in {g.callee(node_of(g.cfg, c) or r_at, c) for c in sb.call_nodes}:
-                    # the approx call feeding b
-                    for c in sb.call_nodes:
-                        cn = node_of(g.cfg, c)
-                        if cn is None or g.callee(cn, c) != "pytest.approx":
-                            continue
-                        why = _check_approx_call(g, cn, c)
-                        ok = why is None
-        if not ok:
-            run.violate("A4", f"{g.qual}:return:{norm(r.ast, 80)}", g.mod, r.ast, why or "verdict shape")
-    # symmetry at infinity: the default absolute tolerance |lhs * rel| is infinite for an infinite lhs, which would make it equal to everything
-    run.ob("A4", "infinite-operands-compared-exactly")
-    if not guarded_inf:
-        run.violate("A4", f"{g.qual}:infinite-operands", g.mod, g.fn,
-                    "approx_equal_numbers has no exact comparison for infinite operands: with the default absolute tolerance |lhs * rel| an infinite lhs equals every rhs, "
-                    "while the swapped operands fail - the verdict is not symmetric")
-    run.sample({"function": g.qual, "approx_calls": [norm(c, 100) for _, c in pa]})
+            sl, sr = var(f"si({lhs_obj.tag})"), var(f"si({rhs_obj.tag})")
+            need = [next((v for v in R.verdicts.values() if verdict_matches(v, app(p_, sl), app(p_, sr), RL, AB)), None) for p_ in ("re", "im")]
+            if outcome[0] == "returns":
+                # the assertion passed: every run that passes must have seen both comparisons, with the caller's tolerances, true
+                if any(v is None for v in need):
+                    if "pass" not in reported:
+                        reported.add("pass")
+                        used = list(R.verdicts.values())
+                        tol_only = all(any(v.kind == "tol" and same_value(v.lhs, app(p_, sl)) and same_value(v.rhs, app(p_, sr)) for v in used) for p_, nv in zip(("re", "im"), need) if nv is None)
+                        run.violate("A5" if tol_only and used else "A6", f"{M}:assert_equal:{label}:passes", mod, tree,
+                                    f"assert_equal ({label}) passes without both comparisons of the SI values of lhs and rhs under the caller's tolerances "
+                                    f"(comparisons made: {[str(v) for v in used][:4]})")
+                elif not all(assume.get(v.key) is True for v in need) and "passfalse" not in reported:
+                    reported.add("passfalse")
+                    run.violate("A6", f"{M}:assert_equal:{label}:passes-false", mod, tree, f"assert_equal ({label}) passes although a comparison is false")
+            elif outcome == ("raises", "AssertionError"):
+                if all(v is not None and assume.get(v.key) is True for v in need) and all(assume.get(k) is True for k in assume) and "failtrue" not in reported:
+                    reported.add("failtrue")
+                    run.violate("A6", f"{M}:assert_equal:{label}:fails-true", mod, tree, f"assert_equal ({label}) raises AssertionError although every comparison holds")
 
-    # ------------------------------------------------------------------ A5 forwarding
-    chains = [
-        ("approx_equal_quantities", AEN, ["relative_tolerance", "absolute_tolerance"], 2),
-        ("assert_equal", AEQ, ["relative_tolerance", "absolute_tolerance", "dimension"], 1),
-        ("assert_equal_vectors", AE, ["relative_tolerance", "absolute_tolerance", "dimension"], 1),
-    ]
-    for caller, callee, keys, minimum in chains:
-        h = Fn(w, M, caller)
-        cs = h.calls(callee)
-        run.require(len(cs) >= minimum, f"{caller} has {len(cs)} call(s) of {callee.split('.')[-1]}, {minimum} expected")
-        for n, c in cs:
-            for k in keys:
-                run.ob("A5", f"{caller}->{callee.split('.')[-1]}:{k}@{h.line(c)}")
-                v = kw(c, k)
-                if v is None or not _pure_forward(h, n, v, k):
-                    run.violate("A5", f"{h.qual}:{callee.split('.')[-1]}:{k}:{_ordinal(cs, c)}", h.mod, c,
-                                f"keyword `{k}` of {callee.split('.')[-1]} does not receive the caller's `{k}` unchanged "
-                                f"({'missing' if v is None else norm(v, 60)})")
-    # dimension given to the rhs wrapper in approx_equal_quantities / assert_equal comes from the caller
-    # ------------------------------------------------------------------ A6
-    h = Fn(w, M, "assert_equal")
-    asserts = [n for n in h.cfg.stmt_nodes() if n.kind == "stmt" and isinstance(n.ast, ast.Assert)]
-    found = False
-    for n in asserts:
-        for c in must_all(h.cfg, n, n.ast.test):
-            cn = node_of(h.cfg, c)
-            if cn is not None and h.callee(cn, c) == AEQ and len(c.args) >= 2:
-                s0, s1 = h.slice(cn, c.args[0]), h.slice(cn, c.args[1])
-                if "lhs" in s0.params and "rhs" not in s0.params and "rhs" in s1.params and "lhs" not in s1.params:
-                    # must be on every path: the assert node dominates the normal exit
-                    if all(h.cfg.dominated_by(x, lambda y: y is n) for x in h.cfg.normal_exits()):
-                        found = True
-    run.ob("A6", "assert")
-    if not found:
-        run.violate("A6", f"{h.qual}:assert", h.mod, h.fn, "assert_equal does not assert approx_equal_quantities(lhs, rhs) on every path to its normal exit")
-    for fn_ in (h, f):
-        wraps = fn_.calls(QTY)
-        rhs_wrapped = False
-        for n, c in wraps:
-            if not c.args:
-                continue
-            s = fn_.slice(n, c.args[0])
-            d = kw(c, "dimension")
-            run.ob("A6", f"{fn_.path}:Quantity@{fn_.line(c)}")
-            if "lhs" in s.params and d is not None:
-                run.violate("A6", f"{fn_.qual}:Quantity(lhs,dimension)", fn_.mod, c, "lhs is re-wrapped with a caller-supplied dimension (its own dimension must be kept)")
-            if s.params == {"rhs"}:
-                if d is not None and _pure_forward(fn_, n, d, "dimension"):
-                    rhs_wrapped = True
-                else:
-                    run.violate("A6", f"{fn_.qual}:Quantity(rhs)", fn_.mod, c, "a bare rhs is wrapped without the caller's `dimension`")
-        run.ob("A6", f"{fn_.path}:rhs-wrap")
-        if not rhs_wrapped:
-            run.violate("A6", f"{fn_.qual}:rhs-wrap", fn_.mod, fn_.fn, "no Quantity(rhs, dimension=dimension) wrapper for a bare number")
-
-    # ------------------------------------------------------------------ A7
-    v = Fn(w, M, "assert_equal_vectors")
-    loops = [n for n in v.cfg.stmt_nodes() if n.kind == "for"]
-    ok7 = False
-    for lp in loops:
-        it = lp.ast.iter
-        if isinstance(it, ast.Call) and v.callee(lp, it) == "builtins.zip" and len(it.args) == 2:
-            strict = kw(it, "strict")
-            s0, s1 = v.slice(lp, it.args[0]), v.slice(lp, it.args[1])
-            comp = "components" in s0.attr_names and "components" in s1.attr_names
-            sides = s0.params == {"lhs"} and s1.params == {"rhs"} and not s0.calls and not s1.calls and \
-                not any(isinstance(x, (ast.Subscript, ast.Slice)) for e in s0.exprs + s1.exprs for x in ast.walk(e))
-            tg = lp.ast.target
-            if isinstance(strict, ast.Constant) and strict.value is True and comp and sides and isinstance(tg, ast.Tuple) and len(tg.elts) == 2:
-                a, b = [e.id for e in tg.elts if isinstance(e, ast.Name)]
-                for n, c in v.calls(AE):
-                    if len(c.args) >= 2 and isinstance(c.args[0], ast.Name) and isinstance(c.args[1], ast.Name) \
-                            and c.args[0].id == a and c.args[1].id == b and n.lexical_tests == ((lp, True), ):
-                        ok7 = True
-    run.ob("A7", "zip-strict")
+    # ------------------------------------------------------------------ A7: assert_equal_vectors
+    def vec(tag, n_):
+        v = Obj("QuantityVector", {"dimension": D, "display_name": tag}, tag)
+        v.attrs["components"] = [qobj(f"{tag}{i}", D) for i in range(n_)]
+        return v
+    run.ob("A7", "pairs")
+    lv_, rv_ = vec("LV", 2), vec("RV", 2)
+    runs = explore(tree, "assert_equal_vectors", [lv_, rv_], {"relative_tolerance": RL, "absolute_tolerance": AB, "dimension": D})
+    passing = [(a_, o_, R_) for a_, o_, R_ in runs if o_[0] == "returns"]
+    ok7 = bool(passing)
+    for assume, outcome, R in passing:
+        for i in range(2):
+            sl, sr = var(f"si(LV{i})"), var(f"si(RV{i})")
+            for p_ in ("re", "im"):
+                v = next((v for v in R.verdicts.values() if verdict_matches(v, app(p_, sl), app(p_, sr), RL, AB)), None)
+                if v is None or assume.get(v.key) is not True:
+                    ok7 = False
     if not ok7:
-        run.violate("A7", f"{v.qual}:loop", v.mod, v.fn,
-                    "assert_equal_vectors does not assert every (lhs component, rhs component) pair of a strict zip")
-    run.sample({"function": v.qual, "loops": [norm(lp.ast.iter, 100) for lp in loops]})
-
-
-def _ordinal(cs, c) -> int:
-    return [x for _, x in cs].index(c)
-
-
-def _mentions_infinity(t: ast.AST) -> bool:
-    return any((isinstance(x, ast.Name) and x.id in ("inf", "oo", "isinf", "Infinity")) or (isinstance(x, ast.Attribute) and x.attr in ("inf", "isinf", "Infinity", "is_infinite"))
-               or (isinstance(x, ast.Constant) and isinstance(x.value, str) and x.value.lstrip("+-") == "inf") for x in ast.walk(t))
-
-
-def _is_si_value(f: Fn, n, expr) -> bool:
-    """the compared number is derived from the operand's SI value: convert_to_si(q) (or convert_to(q, dimension_to_si_unit(...))), not from q.scale_factor"""
-    sl = f.slice(n, expr)
-    names = {(f.callee(node_of(f.cfg, c) or n, c) or "").split(".")[-1] for c in sl.call_nodes}
-    if "convert_to_si" in names or ("convert_to" in names and "dimension_to_si_unit" in names):
-        return "scale_factor" not in sl.attr_names
-    return False
-
-
-def _has_part(f: Fn, n, expr, part: str) -> bool:
-    sl = f.slice(n, expr)
-    for c in sl.call_nodes:
-        cn = node_of(f.cfg, c) or n
-        if f.callee(cn, c) == f"sympy.{part}":
-            return True
-    return False
-
-
-def _check_approx_call(g: Fn, n, c: ast.Call):
-    """pytest.approx(rhs, rel=<relative tolerance>, abs=<absolute tolerance>) with the documented defaults."""
-    if not c.args:
-        return "pytest.approx is called without the expected value"
-    s = g.slice(n, c.args[0])
-    if s.params != {"rhs"} or s.calls or numeric_consts(s):
-        return f"the expected value given to pytest.approx is not rhs itself ({norm(c.args[0], 60)})"
-    rel, ab = kw(c, "rel"), kw(c, "abs")
-    if rel is None or ab is None:
-        return "pytest.approx is called without rel= or abs="
-    sr = g.slice(n, rel)
-    if sr.params != {"relative_tolerance"} or numeric_consts(sr) or (sr.free - {"APPROX_RELATIVE_TOLERANCE"}) or sr.calls:
-        return (f"rel= of pytest.approx depends on {sorted(sr.params | sr.free | {str(x) for x in numeric_consts(sr)} | sr.calls)}; "
-                f"it must be the caller's relative_tolerance or the module default, unchanged")
-    if "APPROX_RELATIVE_TOLERANCE" not in sr.free:
-        return "rel= of pytest.approx has no default (the module constant does not reach it)"
-    sa = g.slice(n, ab)
-    if not {"absolute_tolerance", "lhs", "relative_tolerance"} <= sa.params:
-        return f"abs= of pytest.approx depends only on {sorted(sa.params)}: the default |lhs*relative tolerance| does not reach it"
-    if "rhs" in sa.params:
-        return "abs= of pytest.approx depends on rhs"
-    if numeric_consts(sa) or (sa.free - {"APPROX_RELATIVE_TOLERANCE"}) or (sa.calls - {"abs"}):
-        return f"abs= of pytest.approx involves {sorted({str(x) for x in numeric_consts(sa)} | (sa.free - {'APPROX_RELATIVE_TOLERANCE'}) | (sa.calls - {'abs'}))}"
-    # shape of the default: every definition of the abs tolerance other than the parameter is |lhs^1 * rel^1|
-    defaults = [d for d in sa.def_nodes if isinstance(d.ast, (ast.Assign, ast.AnnAssign)) and
-                any(isinstance(t, ast.Name) and t.id == "absolute_tolerance" for t in (d.ast.targets if isinstance(d.ast, ast.Assign) else [d.ast.target]))]
-    if not defaults:
-        return "no default for the absolute tolerance"
-    for d in defaults:
-        m = monomial(d.ast.value, lambda e: e.id if isinstance(e, ast.Name) else None)
-        if m is None or {k: v for k, v in m.items() if k != "#"} != {"lhs": Fraction(1), "relative_tolerance": Fraction(1)} or abs(m["#"]) != 1 \
-                or not _under_abs(d.ast.value):
-            return f"default absolute tolerance is `{norm(d.ast.value, 60)}`, not |lhs * relative_tolerance|"
-        # the default is used only when the caller gave none
-        tests = [t for t, br in d.lexical_tests]
-        if not any(_is_none_test(t.ast.test, "absolute_tolerance") for t in tests if isinstance(t.ast, ast.If)):
-            return "the default absolute tolerance overrides a caller-supplied one"
-    return None
-
-
-def _under_abs(e: ast.AST) -> bool:
-    return isinstance(e, ast.Call) and dotted(e.func) in ("abs", "Abs")
-
-
-def _is_none_test(t: ast.AST, name: str) -> bool:
-    return isinstance(t, ast.Compare) and isinstance(t.left, ast.Name) and t.left.id == name and len(t.ops) == 1 \
-        and isinstance(t.ops[0], ast.Is) and isinstance(t.comparators[0], ast.Constant) and t.comparators[0].value is None
+        run.violate("A7", f"{M}:assert_equal_vectors:loop", mod, tree,
+                    "assert_equal_vectors can pass without every (lhs component, rhs component) pair having compared equal under the caller's tolerances")
+    run.ob("A5", "vectors:dimension")
+    rv_bare = Obj("QuantityVector", {"dimension": D, "display_name": "RB", "components": [var("rb0"), var("rb1")]}, "RB")
+    runs = explore(tree, "assert_equal_vectors", [vec("LV", 2), rv_bare], {"relative_tolerance": RL, "absolute_tolerance": AB, "dimension": D})
+    for assume, outcome, R in runs:
+        if outcome[0] != "returns":
+            continue
+        wr = [x for x in R.wrapped if x[1] and isinstance(x[1][0], T) and repr(x[1][0]) in ("rb0", "rb1")]
+        if len(wr) != 2 or not all(isinstance(x[2].get("dimension"), Dim) and x[2]["dimension"] == D for x in wr):
+            run.violate("A5", f"{M}:assert_equal_vectors:dimension", mod, tree,
+                        "assert_equal_vectors does not hand the caller's `dimension` on to assert_equal: bare right-hand components are wrapped without it")
+            break
+    run.ob("A7", "zip-strict")
+    runs = explore(tree, "assert_equal_vectors", [vec("LV", 2), vec("RV", 3)], {"relative_tolerance": RL, "absolute_tolerance": AB, "dimension": D})
+    if any(o_[0] == "returns" for a_, o_, R_ in runs):
+        run.violate("A7", f"{M}:assert_equal_vectors:lengths", mod, tree, "assert_equal_vectors passes for vectors of different lengths (the surplus components are never compared)")
+    runs = explore(tree, "assert_equal_vectors", [vec("LV", 3), vec("RV", 2)], {"relative_tolerance": RL, "absolute_tolerance": AB, "dimension": D})
+    if any(o_[0] == "returns" for a_, o_, R_ in runs):
+        run.violate("A7", f"{M}:assert_equal_vectors:lengths", mod, tree, "assert_equal_vectors passes for vectors of different lengths (the surplus components are never compared)")
+    run.sample({"module": M, "functions": ["approx_equal_numbers", "approx_equal_quantities", "assert_equal", "assert_equal_vectors"]})
